@@ -323,3 +323,75 @@ func ScriptedFindings(prop, name string, r *Result) []harness.Finding {
 	}
 	return out
 }
+
+// RunWorkloadFor runs `cases` cases of a workload and returns the violations of one property as findings (with replay
+// files for the first of each rule) plus the totals of the counters named in `judged` — the sim half of a check whose main
+// part lives elsewhere.
+func RunWorkloadFor(run *harness.Run, prop, workload string, p *Profile, cases int, judged []string) ([]harness.Finding, map[string]interface{}) {
+	p.Workload = workload
+	sc := &SimCheck{Prop: prop, Workload: workload, Profile: func(bool) *Profile { return p }}
+	workers := runtime.NumCPU() - 2
+	if workers < 2 {
+		workers = 2
+	}
+	var mu sync.Mutex
+	total := map[string]int{}
+	steps := 0
+	byCase := map[int][]Violation{}
+	ch := make(chan int)
+	var wg sync.WaitGroup
+	for k := 0; k < workers; k++ {
+		wg.Add(1)
+		go func() {
+			defer wg.Done()
+			for i := range ch {
+				r := RunCase(run.Seed, p, i)
+				mu.Lock()
+				steps += r.Steps
+				for k, v := range r.Stats {
+					total[k] += v
+				}
+				for _, v := range r.Viol {
+					if v.Prop == prop {
+						byCase[i] = append(byCase[i], v)
+					}
+				}
+				mu.Unlock()
+			}
+		}()
+	}
+	for i := 0; i < cases; i++ {
+		mu.Lock()
+		n := len(byCase)
+		mu.Unlock()
+		if n >= 40 {
+			break
+		}
+		ch <- i
+	}
+	close(ch)
+	wg.Wait()
+	var idx []int
+	for i := range byCase {
+		idx = append(idx, i)
+	}
+	sort.Ints(idx)
+	var findings []harness.Finding
+	written := map[string]string{}
+	for _, i := range idx {
+		for _, v := range byCase[i] {
+			key := v.Rule + "|" + v.Taint
+			if written[key] == "" {
+				written[key], _ = writeReplay(run, sc, p, i)
+			}
+			findings = append(findings, harness.Finding{Prop: v.Prop, Rule: v.Rule, Taint: v.Taint, Detail: v.Detail, Replay: written[key]})
+		}
+	}
+	ev := map[string]interface{}{"sim_workload": workload, "sim_cases": cases, "sim_scheduler_steps": steps, "sim_cases_with_violation_of_this_property": len(byCase)}
+	j := map[string]int{}
+	for _, k := range judged {
+		j[k] = total[k]
+	}
+	ev["sim_events_judged"] = j
+	return findings, ev
+}
